@@ -420,7 +420,42 @@ func registerKeygenModels(P *Program) {
 	m := P.models
 	// safeprime.GenerateConcurrent: the worker pool is replaced by a channel that yields, on every
 	// receive, a fresh safe prime of the requested size (top two bits set, as prepareBytes ensures)
+	safePrime := func(ex *Exec, bits int64) Value {
+		lo := new(big.Int).Mul(big.NewInt(3), smt.Pow2Big(uint(bits-2)))
+		hi := new(big.Int).Sub(smt.Pow2Big(uint(bits)), big.NewInt(1))
+		p := ex.freshInt("safeprime", lo, hi)
+		ex.assume(smt.Eq(smt.Mod(p, smt.I64(2)), smt.I64(1)))
+		ex.assume(isPrime(p))
+		ex.assume(isPrime(smt.Div(p, smt.I64(2))))
+		ex.assume(smt.Eq(smt.Mod(smt.Div(p, smt.I64(2)), smt.I64(2)), smt.I64(1)))
+		return ex.newBig(BigVal{I: p})
+	}
+	// safeprime.Generate (with param stub_generate, for the obligations about the worker pool): returns
+	// (nil, nil) once the stop channel is closed, otherwise a fresh safe prime - or, with param genfail,
+	// an error (failing randomness source)
+	m[TargetModule+"/safeprime.Generate"] = func(ex *Exec, fn *ssa.Function, args []Value) (Value, bool) {
+		if ex.Ob.Param("stub_generate", 0) == 0 {
+			return nil, false
+		}
+		bits, ok := term(args[0]).ConstInt64()
+		if !ok || bits < 4 {
+			ex.unsupported("Generate with symbolic size")
+		}
+		ex.stubs["safeprime.Generate is a stub: (nil, nil) once its stop channel is closed, otherwise a fresh safe prime of the requested size (or an error, where the obligation allows the randomness source to fail)"] = true
+		stop, _ := args[1].(*Chan)
+		ex.yieldPoint(nil, nil)
+		if stop != nil && stop.Closed {
+			return Tuple{Pointer{}, Iface{}}, true
+		}
+		if ex.Ob.Param("genfail", 0) == 1 && ex.branch(smt.Var(ex.fresh("generateFails"), smt.Bool, nil, nil)) {
+			return Tuple{Pointer{}, ex.freshError("randomness source failed")}, true
+		}
+		return Tuple{safePrime(ex, bits), Iface{}}, true
+	}
 	m[TargetModule+"/safeprime.GenerateConcurrent"] = func(ex *Exec, fn *ssa.Function, args []Value) (Value, bool) {
+		if ex.Ob.Param("real_concurrent", 0) == 1 {
+			return nil, false
+		}
 		bits, ok := term(args[0]).ConstInt64()
 		if !ok || bits < 4 {
 			ex.unsupported("GenerateConcurrent with symbolic size")
